@@ -13,8 +13,35 @@ from vlib.runner import Violation, code_under_test
 
 PROPERTY_ID = "C05"
 LEVEL = "exploration"
-RULE = "draft"
-ASSUMPTIONS = ["draft"]
+RULE = ("Random: records of 60..3000 bases, linear or circular, with 2-9 genes built by construction (touching, "
+        "overlapping, nested, origin-spanning; CORE gene functions drawn with a bias to the products of the "
+        "protoclusters whose core holds the gene); 1-7 protoclusters, each made as: core = span of 1-3 consecutive "
+        "genes / copy of an earlier protocluster (identical coordinates, or same core with another neighbourhood) / "
+        "core inside an earlier core / whole protocluster inside an earlier extent / extent starting -1, 0, +1 bases "
+        "from the end of an earlier extent / free arc anchored on earlier edges; neighbourhoods from {0,1,2,5,20,50,"
+        "L/10,L/4, sometimes L} per side, clipped on a line, wrapped on a ring (whole-record extents included). "
+        "Every case is formed for all permutations of the input (<= 3 protoclusters) or 5 orders, plus the order "
+        "Record.create_candidate_clusters() uses, plus through the record itself. Enumeration: one gene per three-base "
+        "cell (even cells carry core genes of every product), every multiset of k protocluster shapes (core of 1-2 "
+        "cells at every position x neighbourhood of 0-2 cells) on the line and on the ring; bounds in "
+        "coverage.enumeration_plan. Non-trivial: >= 3 protoclusters with at least two different relations among "
+        "share-a-defining-gene / cores overlap / extents overlap, or a relation through an origin-spanning core or "
+        "extent, or two related protoclusters with identical coordinates, or a same-coordinates promotion; distinct = "
+        "sha1 of the spec (enumerated cases are distinct by construction).")
+ASSUMPTIONS = [
+    "overlap/containment of locations are the set-of-bases definitions of vlib/ring.py (C04 judges the location code)",
+    "'the span covering' a group is the hull on a line; on a ring it is what connect_locations returns (judged by "
+    "C04), re-checked here for every candidate: covers its members, one arc, the minimal arc when shorter than L/2",
+    "definition genes are the genes inside the core with a CORE function for the product (C08 judges membership); a "
+    "case where the record disagrees is counted as excluded, never seen so far",
+    "same-coordinates promotion (a weaker group with the coordinates of an existing candidate is folded into it and "
+    "its extra members get singles) is documented in build_candidates and pinned by test_protocluster_promotion / "
+    "test_overlap_interleave; it is part of the reference. Whether a promoted member that belongs to an interleaved "
+    "group keeps a single is left open; two groups of one pass with the same coordinates are judged by the "
+    "predicates only",
+    "vlib/c05_patches.py (the proposed repairs as in-process replacements) is used only to attribute an already "
+    "reported disagreement to known root causes, never to decide whether a case passes",
+]
 
 HYBRID, INTERLEAVED, NEIGHBOURING, SINGLE = "chemical_hybrid", "interleaved", "neighbouring", "single"
 STRENGTH = {HYBRID: 3, INTERLEAVED: 2, NEIGHBOURING: 1, SINGLE: 0}
@@ -408,6 +435,24 @@ def _repair_lookup(spec: dict, got: list, model: Reference) -> tuple:
     return result, changes
 
 
+def _check_core_location(spec: dict, cand, index_of: dict) -> None:
+    """ CandidateCluster.core_location is the span of the member cores """
+    core = ring.from_bio(cand.core_location)
+    union = set()
+    for proto in cand.protoclusters:
+        union |= ring.bases(spec["protos"][index_of[id(proto)]]["core"])
+    problem = ring.wellformed(core, spec["L"], span=True)
+    if problem is None and not union <= ring.bases(core):
+        problem = "does not cover the member cores"
+    if problem is None and not spec["circular"] and _parts(core) != (ring.hull_line(union),):
+        problem = "not the hull of the member cores"
+    if problem is None and spec["circular"] and not ring.is_arc(ring.bases(core), spec["L"]):
+        problem = "not a single arc"
+    if problem:
+        raise Violation("P2_core_location", {"core_location": core, "problem": problem,
+                                             "members": sorted(index_of[id(p)] for p in cand.protoclusters)})
+
+
 def check_form(spec: dict) -> dict:
     from antismash.common.secmet.features.candidate_cluster import formation
     length, circular = spec["L"], spec["circular"]
@@ -431,6 +476,8 @@ def check_form(spec: dict) -> dict:
             seen, repeated = _observe(created, index_of)
             repeated_member = repeated_member or repeated
             outcomes.append(seen)
+            for cand in created:
+                _check_core_location(spec, cand, index_of)
         return outcomes
 
     outcomes = run_all()
